@@ -28,7 +28,15 @@ CHECKS = {
 }
 
 _T = "TLA+ model checking (TLC) + schedule replay on real code + TLC trace monitors"
+_T = "TLA+ model checking (TLC) + schedule replay on real code + TLC trace monitors"
 CHECKS.update({
+    "C02": {"text": "every first stream request of a session is compared by the C02 monitor with what the store holds (exact tuple), "
+                    "with zeros (earliest) or with the sampled high seqno (latest, nothing stored for the assignment), and its end with "
+                    "the dcp mode (infinite / finite = sampled high); Core.tla is model-checked against it in the finite+latest, "
+                    "fault and save-protocol configurations (stores written by earlier sessions, crashes, flushes, partial loads); the "
+                    "real code runs TLC-generated schedules and the monitor is re-evaluated on its traces.",
+            "ref": "6/C02", "note": _A + "; the 64-bit round trip through the Couchbase xattr / file / read-only backends is not yet covered (rig B)",
+            "technique": _T},
     "C03": {"text": "Core.tla lets the SERVER choose every next event (snapshot layouts, mutation/deletion/expiration, system, "
                     "seqno-advanced, key classes incl. reserved prefixes, events before skipUntil, rollback on open, crash and "
                     "resume mid-snapshot); TLC checks exhaustively that the consumer sees exactly the expected document events in "
